@@ -29,11 +29,11 @@ Proof. exact c07_never_panics. Qed.
 Print Assumptions C07_never_panics.
 
 (* the premise of abstracting from time in this property's model: the code it models waits, polls and gives up
-   exactly where the model says (primitive codes in Proofs/W_*.v); re-extracted from the source on every run *)
+   with exactly the kinds of primitives the model accounts for (codes in Proofs/W_*.v); re-extracted from the source on every run *)
 Require Import GV.Gen.Consts GV.Proofs.W_governor.
-Theorem C07_time_abstraction : waits_governor = (@cons Z 7%Z (@cons Z 7%Z (@cons Z 7%Z (@nil Z)))).
+Theorem C07_time_abstraction : waits_governor = (@cons Z 7%Z (@nil Z)).
 Proof. exact w_governor. Qed.
-Check C07_time_abstraction : waits_governor = (@cons Z 7%Z (@cons Z 7%Z (@cons Z 7%Z (@nil Z)))).
+Check C07_time_abstraction : waits_governor = (@cons Z 7%Z (@nil Z)).
 Print Assumptions C07_time_abstraction.
 
 (* the model the theorems above speak about is the source: Governor::next_state as translated from
